@@ -14,6 +14,10 @@ class Deadlock(Exception):
     pass
 
 
+class SelfDeadlock(BaseException):
+    """a non-reentrant lock was acquired again by the only running thread: the real code would block forever"""
+
+
 class TRec:
     def __init__(self, name, fn):
         self.name = name
@@ -186,7 +190,7 @@ class SchedLock:
         s = SchedLock.sched
         if s is None or not s.active:
             if self.held:
-                raise core.HarnessError('lock %s acquired while held, outside the scheduler (self-deadlock)' % self.name)
+                raise SelfDeadlock('lock %s acquired while already held by the same thread: the operation would block forever' % self.name)
             self.held = True
             return True
         s.yield_point()
